@@ -4,7 +4,7 @@
     [Value x rest] with [rest] a suffix of [bs] (consumed <= available), or [Invalid];
     never [Oob] (read outside the buffer), never [BadAlloc] (reserve above alloc_cap). *)
 From Coq Require Import ZArith List.
-From VB Require Import Gen.Consts Serde.StreamDefs Serde.CodecSpec Serde.StreamProofs Serde.EntityDefs Serde.Theorems.
+From VB Require Import Gen.Consts Serde.StreamDefs Serde.CodecSpec Serde.StreamProofs Serde.EntityDefs Serde.Theorems Serde.FitsProofs.
 Local Open Scope Z_scope.
 
 Theorem C06_primitives_total : forall bs,
@@ -68,3 +68,15 @@ Print Assumptions C06_parse_total_VTB.
 Theorem C06_parse_total_PopData : forall addr_ok, c06_ok (c_popdata addr_ok).
 Proof. exact popdata_c06. Qed.
 Print Assumptions C06_parse_total_PopData.
+Theorem C06_parse_total_AltBlock : c06_ok c_altblock.
+Proof. exact altblock_c06. Qed.
+Print Assumptions C06_parse_total_AltBlock.
+Theorem C06_parse_total_KeystoneContainer : c06_ok c_keystones.
+Proof. exact keystones_c06. Qed.
+Print Assumptions C06_parse_total_KeystoneContainer.
+Theorem C06_parse_total_ContextInfoContainer : c06_ok c_ctxinfo.
+Proof. exact ctxinfo_c06. Qed.
+Print Assumptions C06_parse_total_ContextInfoContainer.
+Theorem C06_parse_total_AuthenticatedContextInfoContainer : c06_ok c_authctx.
+Proof. exact authctx_c06. Qed.
+Print Assumptions C06_parse_total_AuthenticatedContextInfoContainer.
